@@ -14,7 +14,7 @@ DST = "/verif/seeded"
 
 def parse_logs():
     res = {}
-    for f in sorted(glob.glob("/tmp/evalres/*.log")):
+    for f in sorted(glob.glob("/tmp/evalres/round1/*.log")) + sorted(glob.glob("/tmp/evalres/*.log")):
         for line in open(f, errors="replace"):
             m = re.match(r"seed=(\S+) \| (.*)$", line.strip())
             if m:
@@ -32,7 +32,7 @@ def main():
     logs = parse_logs()
     kept = []
     for name, d in sorted(logs.items()):
-        m = re.match(r"(C\d+)_([AB])$", name)
+        m = re.match(r"(C\d+)_([ABCD])$", name)
         if not m:
             continue
         prop, var = m.groups()
